@@ -5,6 +5,8 @@ import BV.Drive.Huffman
 import BV.Drive.Adapters
 import BV.Drive.Header
 import BV.Drive.Multi
+import BV.Drive.Hasher
+import BV.Drive.Recoder
 
 /-- line protocol: `<engine> <args…>` in, one canonical line out -/
 def dispatch (line : String) : String :=
@@ -17,6 +19,8 @@ def dispatch (line : String) : String :=
   | "header" :: rest => BV.Drive.Header.handle rest
   | "multi" :: rest => BV.Drive.Multi.handle rest
   | "adapters" :: rest => BV.Drive.Adapters.handle rest
+  | "hasher" :: rest => BV.Drive.Hasher.handle rest
+  | "recoder" :: rest => BV.Drive.Recoder.handle rest
   | _ => "bad-engine"
 
 partial def loop (h : IO.FS.Stream) (out : IO.FS.Stream) : IO Unit := do
